@@ -90,6 +90,20 @@ class C05(Check):
                         op['v'] = rng.choice([None, 'zz\0', 'bytearray'])
                 ops.append(op)
         rng.shuffle(ops)
+        if rng.random() < 0.12:
+            # focus: within the suppression window one task keeps assigning the value it finds (a poller which reads
+            # the same again) while another one assigns new values to the same parameter at the same instant
+            ntasks = 2
+            mname, p = rng.choice(plist)
+            spec = next(s_ for s_ in specs if s_['name'] == mname)
+            spec['omit'] = rng.choice([5.0, 0.1])
+            p['unchanged'] = 'default'
+            ops = [{'task': 0, 'm': mname, 'p': p['name'], 'kind': 'assign', 'tok': 1, 'dt': 0.3,
+                    'v': dtgen.valid_wire(rng, p['di'])}]
+            for k in range(rng.randrange(2, 6)):
+                ops.append({'task': 0, 'm': mname, 'p': p['name'], 'kind': 'assign_same', 'tok': 2 + 2 * k, 'dt': 0})
+                ops.append({'task': 1, 'm': mname, 'p': p['name'], 'kind': 'assign', 'tok': 3 + 2 * k,
+                            'dt': 0.3 if k == 0 else 0, 'v': dtgen.valid_wire(rng, p['di'])})
         shape = {'p_switch': rng.choice([0.1, 0.3, 0.6]), 'line_gaps': rng.choice([0, 0, 8, 12, 15]),
                  'seg_bias': rng.choice([1.0, 0.6]), 'lat_bias': rng.choice([1.0, 0.6]),
                  'specs': specs, 'ntasks': ntasks, 'slow_consumer': rng.random() < 0.15,
@@ -103,7 +117,7 @@ class C05(Check):
                     if rng.random() < 0.5:
                         shape['cb_faults'][f'{s["name"]}.{p["name"]}'] = {
                             'exc': rng.choice(['OSError', 'KeyError', 'ValueError', 'RuntimeError', 'ZeroDivisionError']),
-                            'every': rng.choice([1, 2, 3])}
+                            'every': rng.choice([1, 2, 3]), 'style': rng.choice(['function', 'partial', 'object'])}
         return {'shape': shape, 'ops': ops}
 
     def shrink_candidates(self, case):
